@@ -16,7 +16,17 @@ VERIF = os.path.dirname(os.path.dirname(os.path.abspath(__file__)))
 REPO = os.environ.get("VERIF_REPO", "/repo")
 WORK = os.path.join(VERIF, ".work")
 SPEC = os.path.join(VERIF, "spec")
-HARNESS = os.path.join(VERIF, "harness")
+HARNESS_SRC = os.path.join(VERIF, "harness")
+# Registered checks always build against /repo. For trying a mutated copy of the repository without touching
+# /repo (and without disturbing concurrent builds) set VERIF_REPO=<worktree>: the harness sources are then
+# mirrored to a per-repo build directory with its own go.mod.
+if os.path.realpath(REPO) == "/repo":
+    HARNESS = HARNESS_SRC
+    BINDIR = os.path.join(WORK, "bin")
+else:
+    _tag = hashlib.sha256(os.path.realpath(REPO).encode()).hexdigest()[:10]
+    HARNESS = os.path.join(WORK, "alt-" + _tag, "harness")
+    BINDIR = os.path.join(WORK, "alt-" + _tag, "bin")
 EVID = os.path.join(VERIF, "evidence")
 OVERLAY = os.path.join(WORK, "overlay", "overlay.json")
 NCPU = os.cpu_count() or 4
@@ -77,6 +87,9 @@ def ensure_overlay():
 
 def ensure_harness_mod():
     """harness/go.mod = /repo/go.mod with the module line changed + replace to /repo; go.sum copied."""
+    if HARNESS != HARNESS_SRC:
+        os.makedirs(HARNESS, exist_ok=True)
+        sh(["rsync", "-a", "--delete", "--exclude", "go.mod", "--exclude", "go.sum", HARNESS_SRC + "/", HARNESS + "/"])
     src = open(os.path.join(REPO, "go.mod")).read()
     src = re.sub(r'^module .*$', "module verif/harness", src, count=1, flags=re.M)
     src += "\nrequire github.com/bloxapp/ssv v0.0.0\n\nreplace github.com/bloxapp/ssv => %s\n" % REPO
@@ -108,7 +121,7 @@ GO_BUILD_FLAGS = ["-tags", "verif", "-ldflags=-checklinkname=0"]
 def go_build(driver, race=False):
     """Build harness/cmd/<driver> against /repo's working tree (always invoked; the go cache makes it cheap)."""
     setup()
-    out = os.path.join(WORK, "bin", driver + ("-race" if race else ""))
+    out = os.path.join(BINDIR, driver + ("-race" if race else ""))
     os.makedirs(os.path.dirname(out), exist_ok=True)
     cmd = ["go", "build"] + GO_BUILD_FLAGS + ["-overlay", OVERLAY]
     if race:
